@@ -355,6 +355,7 @@ func main() {
 	}
 	if phase == "all" || phase == "codecs" {
 		codecsPhase(r, thorough)
+		overlongVarintCases(rng.FromEnv(2020))
 	}
 	if phase == "limiter" {
 		limiterPhase(r, thorough)
